@@ -19,7 +19,7 @@ from ..twins import twin_canon
 
 LEVEL = "model_checking"
 MUTANTS = {"drop_status": "ExitReflectsVerdict", "swallow": "ExitReflectsVerdict", "abort_returns_none": "ZeroOnlyIfSigned",
-           "dispatch_on_trusted": "RootDispatch"}
+           "dispatch_on_trusted": "RootDispatch", "lookup_swallowed": "ZeroOnlyIfSigned"}
 SUCCESS = re.compile(r"success|verified", re.I)
 FAILURE = re.compile(r"fail|error|abort|traceback", re.I)
 
@@ -295,6 +295,24 @@ def check(run):
                 res["problems"].append((f"sign-artifacts via {entry}: non-zero exit status although the file was signed", {"output": text[-1500:]}))
             if so == "signed" and not signed:
                 res["problems"].append((f"sign-artifacts via {entry}: valid key and repodata but the file carries no valid signatures", {"output": text[-1500:]}))
+        elif cmd == "gpg-key-lookup":
+            so = c["signout"]
+            seed = crypto.seed_for(68, run.seed)
+            pubhex = crypto.fast_public(seed).hex()
+            env_extra = {"CCTVERIF_HARNESS": harness_dir, "CCTVERIF_GPG_SEED": seed.hex()}
+            if so != "no_sslib":
+                env_extra["PYTHONPATH_PREFIX"] = sslib_dir
+            if so == "key_lookup_fails":
+                env_extra["CCTVERIF_GPG_FAIL"] = "lookup"
+            fpr = r2.choice([faults.FP, faults.FP.upper(), " ".join(faults.FP[i:i + 4] for i in range(0, 40, 4))]) if so != "bad_fingerprint" else \
+                r2.choice(["xyz", faults.FP[:-1], faults.FP + "0", "g" * 40, ""])
+            status, text = run_entry(entry, ["gpg-key-lookup", fpr], wd, env_extra)
+            printed = pubhex in text
+            res["lib"] = ("gpg-key-lookup", "printed" if printed else "not printed")
+            if status == 0 and not (so == "found" and printed):
+                res["problems"].append((f"gpg-key-lookup via {entry}: exit status zero although the key's value was not looked up and printed ({so})", {"output": text[-1500:]}))
+            if so == "found" and not (status == 0 and printed):
+                res["problems"].append((f"gpg-key-lookup via {entry}: key available, but status={status} and the value was {'printed' if printed else 'not printed'}", {"output": text[-1500:]}))
         else:  # gpg-sign through a stand-in securesystemslib importable only in this subprocess
             so = c["signout"]
             seed = crypto.seed_for(67, run.seed)
